@@ -513,7 +513,7 @@ func (g *G) next() *History {
 	k := g.r.Intn(tot)
 	for _, c := range cs {
 		if k < c.w {
-			return g.emptyMethod(c.f(g, id))
+			return g.nilHeader(g.emptyMethod(c.f(g, id)))
 		}
 		k -= c.w
 	}
@@ -530,6 +530,24 @@ func (g *G) emptyMethod(h *History) *History {
 	for i := range h.Ops {
 		if h.Ops[i].Op == "req" && h.Ops[i].Method == "GET" && i > 0 && g.chance(0.5) {
 			h.Ops[i].Method = "(empty)"
+		}
+	}
+	return h
+}
+
+// nilHeader: an upstream that is not one of net/http's transports may return a response whose Header map is
+// nil ("missing header fields" taken to the end). For the fail-open property some replies of one history in
+// twenty-five are of that kind: no header field at all, close-delimited body.
+func (g *G) nilHeader(h *History) *History {
+	if g.prop != "C10" || !g.chance(0.04) {
+		return h
+	}
+	for i := range h.Ops {
+		for k := range h.Ops[i].Replies {
+			rp := &h.Ops[i].Replies[k]
+			if !rp.Err && !rp.Hang && g.chance(0.4) {
+				rp.Hdr, rp.Trailer, rp.Chunked, rp.NoCL, rp.NilHdr = nil, nil, false, true, true
+			}
 		}
 	}
 	return h
